@@ -429,6 +429,20 @@ class Base:
             return struct.pack("d", arg)
         if isinstance(arg, tuple):
             return b"".join(b"<" + Base._arg_serialize(a) + b">" for a in arg)
+        if isinstance(arg, claripy.annotation.Annotation) and type(arg).__hash__ is not object.__hash__:
+            # Python's hash() collides for different contents (hash(-1) == hash(-2), hash(2**61 - 1) == hash(0)), which
+            # would merge ASTs that differ only in annotation contents: serialize the contents instead
+            try:
+                return (
+                    b"["
+                    + type(arg).__qualname__.encode()
+                    + b"".join(
+                        b"<" + k.encode() + b"=" + Base._arg_serialize(v) + b">" for k, v in sorted(vars(arg).items())
+                    )
+                    + b"]"
+                )
+            except TypeError:
+                pass
         if hasattr(arg, "__hash__"):
             return hash(arg).to_bytes(8, "little", signed=True)
 
